@@ -67,9 +67,13 @@ MANDATORY_CLASSES = ["crashpoints", "histories", "cli_tsv"]
 
 
 # ---------------------------------------------------------------- building blocks
-def make_input(rng, d, name, fmt, n_spectra):
+def make_input(rng, d, name, fmt, n_spectra, even=False):
     tab = psm.psm_table(rng, n_spectra=n_spectra, mult_max=3, key_cols=("ExpMass",), with_rid=False,
                         file_index=int(rng.integers(0, 50)))
+    if even and len(tab["df"]) % 2:
+        # row count = exactly two chunks of the observed run (a boundary where an off-by-one chunk index shows)
+        tab["df"] = tab["df"].iloc[:-1].reset_index(drop=True)
+        tab["truth"] = tab["truth"].iloc[:-1].reset_index(drop=True)
     p = psm.write_parquet(tab, d / f"{name}.parquet", row_group_size=50) if fmt == "parquet" else psm.write_pin(tab, d / f"{name}.pin")
     scores = (tab["df"]["info0"].values + 0.3 * tab["df"]["noise0"].values).astype(float)
     return tab, p, scores
@@ -180,7 +184,7 @@ def run_crashpoints(case):
         inputs = d / "inputs"
         inputs.mkdir()
         tabA, pA, sA = make_input(rng, inputs, "A", cfg["fmt"], cfg["n_spectra"])
-        tabB, pB, sB = make_input(rng, inputs, "B", "pin", 80)
+        tabB, pB, sB = make_input(rng, inputs, "B", "pin", 80, even=bool(case["producer"] % 2 == 0))
         nA = len(sA)
         prefA, rootA = (OBS["prefix"], OBS["root"]) if cfg["same_names"] else ("other", "old.")
         # clean reference
@@ -252,7 +256,7 @@ def run_histories(case):
     with core.scratch("c09h") as d:
         inputs = d / "inputs"
         inputs.mkdir()
-        tabB, pB, sB = make_input(rng, inputs, "B", ["pin", "parquet"][case["index"] % 2], 80)
+        tabB, pB, sB = make_input(rng, inputs, "B", ["pin", "parquet"][case["index"] % 2], 80, even=bool(case["index"] % 3 == 0))
         clean_dir = d / "clean"
         c = run_conf(pB, sB, clean_dir, chunk=-(-len(sB) // OBS["chunk_frac"]), prefix=OBS["prefix"], root=OBS["root"])
         if not c.ok:
